@@ -8,8 +8,8 @@ import (
 
 func makeOverlay(tmp string) (string, error) { return "", fmt.Errorf("not built yet") }
 
-func raceFound(tmp, bin, id, tier string, cfg *propCfg, seed uint64, w, nw int, runs int64, o workerOut) []core.Found {
+func raceFound(tmp, bin string, part partCfg, tier string, seed uint64, o workerOut) []core.Found {
 	return nil
 }
 
-func replayRace(tmp, bin string, cfg *propCfg, rf core.ReplayFile, abs string) int { return 2 }
+func replayRace(tmp, bin string, part partCfg, rf core.ReplayFile, abs string) int { return 2 }
